@@ -129,7 +129,7 @@ Example C01_ex_eval :
   /\ fst (eval_program 10 (NStmts [Some (bin token_SLASH (tI 1) (tI 0))])) = OErr None
   /\ eval_program 10 (NStmts [Some (bin token_AND (tB false) (pr (tI 1)))])
      = (OVal (VBool false), init_state)
-  /\ out (snd (eval_program 10 (NStmts [Some (bin token_AND (tB true) (pr (tI 1)))]))) = [49%N]
+  /\ printed (snd (eval_program 10 (NStmts [Some (bin token_AND (tB true) (pr (tI 1)))]))) = [49%N]
   /\ fst (eval_program 2 (NStmts [Some (bin token_PLUS (tI 1) (bin token_ASTERISK (tI 2) (tI 3)))])) = OAbort AFuel.
 Proof. vm_compute. repeat split. Qed.
 
